@@ -70,10 +70,10 @@ func (r *run) judge(o outcome, leakFree bool) {
 
 	// evidence: signature = plan + outcome class; non-trivial iff a fault/context end really happened
 	// at its planned position, or a clean run had more items than mapper slots or a stalled function
-	nontrivial := r.faultHit.Load() == 1 || r.ctxHit.Load() == 1 || p.Ctx == ctxPre ||
+	nontrivial := r.faultHit.Load() == 1 || r.cancelParked.Load() != 0 || r.ctxHit.Load() == 1 || p.Ctx == ctxPre ||
 		(clean && p.Items > p.effWorkers()) || (timerCtx && isCtxErr(o.Err))
 	r.c.Sig(nontrivial, p.API, p.Items, p.Workers, p.NoWorkers, p.Fan, p.Red, p.Kind, p.At, p.Then, p.Ctx, p.CtxPos,
-		p.SecondKind, p.SecondAt, o.Kind, leakFree)
+		p.SecondKind, p.SecondAt, p.Inflight, o.Kind, leakFree)
 	r.c.Obs("outcome_"+o.Kind, 1)
 	if r.faultHit.Load() == 1 {
 		r.c.Obs("fault_reached_"+strings.ReplaceAll(p.Kind, " ", "_")+"_"+p.At.Role, 1)
@@ -161,7 +161,11 @@ func (r *run) judgeFaulted(o outcome, cancels []cancelEv, panics []panicEv, writ
 			r.c.Obs("documented_double_write_panic", 1)
 			return
 		}
-		r.viol("C10/outcome/non-user-panic/"+kit.KeyPart(firstN(o.PanS, 40)), "the call panicked with a value that no user function raised: "+o.PanS, o)
+		key := "C10/outcome/non-user-panic/" + kit.KeyPart(firstN(o.PanS, 40))
+		if o.PanS == "send on closed channel" {
+			key += "/" + r.closeRaceClass()
+		}
+		r.viol(key, "the call panicked with a value that no user function raised: "+o.PanS, o)
 		return
 	case "error":
 		switch {
